@@ -222,7 +222,7 @@ def run(ctx, cell):
     if k == "join":
         ctx.reach("laws")
         n, lsep = cell["n"], cell["lsep"]
-        parts = [ctx.str("p%d" % i, 1 + (i % 2)) for i in range(n)]
+        parts = [ctx.str("p%d" % i, ctx.choice("l%d" % i, 3)) for i in range(n)]      # empty parts included
         sep = ctx.str("sep", lsep)
         out = run_ckl("[join(l, sep), unlines(l), unwords(l), q(l)]",
                       {"l": vlist([vstr(p) for p in parts]), "sep": vstr(sep)})
